@@ -480,7 +480,9 @@ class SparseCoherenceAnalyzer(BaseAnalyzer):
             self.method = {'this_method': 'welch'}
 
         else:
-            self.method = method
+            # work on a copy: the defaults filled in below must not leak into
+            # the caller's dict (and through it into other analyzers)
+            self.method = dict(method)
 
         if self.method['this_method'] != 'welch':
             e_s = "For SparseCoherenceAnalyzer, "
@@ -633,7 +635,9 @@ class SeedCoherenceAnalyzer(object):
             self.method = {'this_method': 'welch'}
 
         else:
-            self.method = method
+            # work on a copy: the defaults filled in below must not leak into
+            # the caller's dict (and through it into other analyzers)
+            self.method = dict(method)
 
         if ('this_method' in self.method.keys() and
             self.method['this_method'] != 'welch'):
